@@ -37,6 +37,7 @@ def configs(tier):
         out.append(dict(step="compound", P=P, A=2))
     for cls in ("calling-gibbs", "calling-mh"):  # CallingMCMC.fit -> greedy_caller / mcmc_sampler
         out.append(dict(group="class-wiring", cls=cls, step="wiring", P=1, A=1))
+    out.append(dict(group="llk-cache", step="wiring", P=1, A=1))  # the memoised likelihood the moves consume (shared with C09)
     for lp in ("calling-loop", "calling-loop-nocache"):  # mcmc_sampler -> compound_step, trace bookkeeping
         out.append(dict(group="loop-wiring", loop=lp, step="wiring", P=1, A=1))
     return out
@@ -75,6 +76,13 @@ def _harness():
 
 
 def run_config(c, col):
+    if c.get("group") == "llk-cache":
+        from checks import c09
+
+        E.use_summaries(True)
+        E.reset_modules()
+        E.cfg.concrete_ints = True
+        return c09.run_calling_dict_cache(col)
     if c.get("group") in ("class-wiring", "loop-wiring"):
         from checks import wiring
 
@@ -267,6 +275,10 @@ def _real_kernel(step, g, k, A, F, farr, Lmap):
 def replay(v):
     import math
 
+    if v["config"].get("group") == "llk-cache":
+        from checks import c09
+
+        return c09._replay_wrappers(v)
     if v["config"].get("group") in ("class-wiring", "loop-wiring"):
         from checks import wiring
 
